@@ -92,7 +92,7 @@ func init() {
 		Stubs:     []string{"strings.Index: first-match ite chain over the symbolic text"},
 		Bounds: map[string]string{
 			"orderings": "quick: every ordered selection of 1 and 2 of the 8 standard keys, 60 random selections of 3, the canonical 8-key receipt, its reverse and the empty text; thorough: all selections of 3 and 300 random selections of 4",
-			"values":    "symbolic printable space-free colon-free strings of length 0/2 (SMPP) and 1/12 (SMGP; 12 exceeds every width but text's); SMGP id: ten symbolic octets (any value except ':')",
+			"values":    "symbolic strings of arbitrary octets (NUL and invalid UTF-8 included) other than space and colon, of length 0/2 (SMPP) and 1/12 (SMGP; 12 exceeds every width but text's); SMGP id: ten symbolic octets (any value except ':')",
 			"spellings": "SMGP: all primary, all backup (thorough: two mixed patterns)",
 		},
 		Outside: []string{"values containing ':' that do not spell a key token", "receipts with more than 4 keys other than the canonical one", "ExtractDeliveryReceipt1 (fmt.Sscanf, deprecated)"},
